@@ -257,12 +257,15 @@ def g9(ctx: Ctx):
         m = py.mod(rel)
         parents = {id(c): pp for pp in ast.walk(m.tree) for c in ast.iter_child_nodes(pp)}
         for n in ast.walk(m.tree):
-            if isinstance(n, ast.Subscript) and isinstance(n.slice, ast.Slice) and isinstance(n.slice.lower, ast.Constant) and n.slice.upper is None and isinstance(n.slice.lower.value, int) and n.slice.lower.value in (3, 4, 5):
+            if isinstance(n, ast.Subscript) and isinstance(n.slice, ast.Slice) and isinstance(n.slice.lower, ast.Constant) and isinstance(n.slice.lower.value, int) and n.slice.lower.value in (3, 4, 5):
                 src = unparse(n.value)
                 if "name()" in src or src in ("var",):
                     n_strip += 1
-                    ok = n.slice.lower.value == len("arr_")
-                    ctx.ob(f"strip-prefix:{rel.split('/')[-1]}:{src}", ok, "" if ok else f"`{unparse(n)}` strips {n.slice.lower.value} characters, the array prefix `arr_` has 4", file=rel, line=n.lineno)
+                    ok = n.slice.lower.value == len("arr_") and n.slice.upper is None
+                    why = f"`{unparse(n)}` strips {n.slice.lower.value} characters, the array prefix `arr_` has 4"
+                    if n.slice.upper is not None:
+                        why = f"`{unparse(n)}` also cuts the name after the prefix: the `$` of a two-character string array name is lost, so the string array is declared under the numeric array's identifier"
+                    ctx.ob(f"strip-prefix:{rel.split('/')[-1]}:{src}", ok, "" if ok else why, file=rel, line=n.lineno, props=["C09", "C10"])
                     # a stripped (source-level) name may only be used to rebuild the variable of an array reference;
                     # everywhere else names are compared in their emitted form
                     par = parents.get(id(n))
